@@ -269,8 +269,14 @@ def concrete_table(rt):
     cell("adjoint:order3", Uu.quaternion_to_complex_adjoint, [rq(2, 2, 2)])
     cell("power_iteration_nonhermitian:nonsquare", Uu.power_iteration_nonhermitian, [rq(2, 3)])
     cell("power_iteration_nonhermitian:real_dtype", Uu.power_iteration_nonhermitian, [realm.copy()])
-    cell("quat_null_space:side", lambda A: Uu.quat_null_space(A, side="up"), [rq(3, 3)])
-    cell("quat_kernel:side", lambda A: Uu.quat_kernel(A, side="up"), [rq(3, 3)])
+    # enumerated options: several representatives per class (bogus word, empty, prefix, case variant, concatenation, wrong type)
+    for bad in ("up", "", "r", "l", "Right", "LEFT", " right", "righ", "rightleft", "right,left", None, 0):
+        cell(f"quat_null_space:side/{bad!r}", lambda A, bad=bad: Uu.quat_null_space(A, side=bad), [rq(3, 3)])
+        cell(f"quat_kernel:side/{bad!r}", lambda A, bad=bad: Uu.quat_kernel(A, side=bad), [rq(3, 3)])
+    for bad in ("", "moore", "MOORE", "Dieudonne ", "Die", "MooreStudy", None, 1):
+        cell(f"det:unknown_type/{bad!r}", Uu.det, [rq(3, 3), bad])
+    for bad in ("", "f", "FRO", "fro ", "Inf", "froF", "12", True + 1.5, "2", 1.5):
+        cell(f"matrix_norm:ord/{bad!r}", Uu.matrix_norm, [rq(3, 3), bad])
     # solvers
     for prec in ("none", "left_lu"):
         s = Ss.QGMRESSolver(preconditioner=None if prec == "none" else prec)
@@ -318,6 +324,19 @@ def concrete_table(rt):
     cell("eig:nonhermitian_margin", E.quaternion_eigendecomposition, [H3m.copy()])
     cell("tridiag:nonhermitian_margin", TD.tridiagonalize, [H3m.copy()])
     cell("eig:indomain(1, 1)", E.quaternion_eigendecomposition, [herm(1)], False)
+    for nm, f in (("eig", E.quaternion_eigendecomposition), ("eigvals", E.quaternion_eigenvalues), ("eigvecs", E.quaternion_eigenvectors)):
+        cell(f"{nm}:nonhermitian/1x1", f, [quaternion.as_quat_array(np.array([[[1.0, 2.0, 3.0, 4.0]]]))])
+        cell(f"{nm}:nonhermitian/2x2", f, [rq(2, 2, seed=4)])
+        Hoff = herm(4)
+        Hoff[3, 0] = Hoff[3, 0] + quaternion.quaternion(0, 0.5, 0, 0)      # defect in the last row only
+        cell(f"{nm}:nonhermitian/corner", f, [Hoff])
+    cell("det:moore_nonhermitian/1x1", Uu.det, [quaternion.as_quat_array(np.array([[[1.0, 0.0, 2.0, 0.0]]])), "Moore"])
+    for mode in (3, -1, 1.5, "0", None):
+        cell(f"unfold:mode/{mode!r}", Tt.tensor_unfold, [rq(2, 12).reshape(2, 3, 4), mode])
+        cell(f"fold:mode/{mode!r}", Tt.tensor_fold, [rq(2, 12), mode, (2, 3, 4)])
+    for bnd in ("zero", "", "Periodic", "periodic ", "reflect", None):
+        cell(f"blur:boundary/{bnd!r}", lambda Q_, p, bnd=bnd: Ll.apply_blur_fft(Q_, p, boundary=bnd), [np.zeros((4, 5, 4)), np.ones((3, 3)) / 9])
+        cell(f"restore_fft:boundary/{bnd!r}", lambda B, p, bnd=bnd: Ll.qslst_restore_fft(B, p, 1e-3, boundary=bnd), [np.zeros((4, 5, 4)), np.ones((3, 3)) / 9])
     cell("tridiag:nonsquare", TD.tridiagonalize, [rq(2, 3)])
     cell("tridiag:1x1", TD.tridiagonalize, [herm(1)])
     cell("tridiag:nonhermitian", TD.tridiagonalize, [rq(3, 3, seed=1)])
